@@ -463,7 +463,10 @@ pub(crate) fn add_int_combination<W, R, T>(
             let mut s = 0;
             rt.can_allocate(k)?;
             let mut ret = Vec::with_capacity(k);
+            // the walk below takes up to n steps, whatever k is
+            let mut search = rt.limits.search_iter();
             while k > 0{
+                search.next().unwrap()?;
                 if i < s_cutoff{
                     ret.push(s);
                     if k > 1{
@@ -512,7 +515,10 @@ pub(crate) fn add_int_combination_with_replacement<W, R, T>(
             let mut s = 0;
             rt.can_allocate(k)?;
             let mut ret = Vec::with_capacity(k);
+            // the walk below takes up to n steps, whatever k is
+            let mut search = rt.limits.search_iter();
             while k > 0{
+                search.next().unwrap()?;
                 if i < s_cutoff{
                     ret.push(s);
                     if k > 1{
